@@ -414,5 +414,7 @@ func (g *gen) run() {
 	g.runGzipHeaders()
 	// T. untouched is byte-identical under the charset auto-decoder
 	g.runCharsetUntouched()
+	// U. Range header spellings
+	g.runRangeSpellings()
 	g.flushSeq(len(g.seqCases))
 }
